@@ -33,9 +33,15 @@ PERMANENT_S3_ERROR_CODES = frozenset({
     "AccountProblem",
     "AuthorizationHeaderMalformed",
     "InvalidAccessKeyId",
+    "InvalidArgument",
     "InvalidBucketName",
     "InvalidObjectState",
+    "InvalidRange",
+    "InvalidRequest",
     "InvalidToken",
+    "InvalidURI",
+    "KeyTooLongError",
+    "MethodNotAllowed",
     "NoSuchBucket",
     "PermanentRedirect",
     "SignatureDoesNotMatch",
